@@ -926,9 +926,15 @@ int sim_tsan_reports(const sim_tsan_report** out) {
 // ------------------------------------------------------------------------------------------------
 // fault handlers
 sim_fault_ctx sim_fctx;
+static uint64_t g_image_end;
 static int phdr_cb(struct dl_phdr_info* info, size_t size, void* data) {
   (void)size;
   *(uint64_t*)data = info->dlpi_addr;
+  for (int i = 0; i < info->dlpi_phnum; ++i)
+    if (info->dlpi_phdr[i].p_type == PT_LOAD) {
+      uint64_t e = info->dlpi_addr + info->dlpi_phdr[i].p_vaddr + info->dlpi_phdr[i].p_memsz;
+      if (e > g_image_end) g_image_end = e;
+    }
   return 1;  // first entry = main program
 }
 uint64_t sim_image_base(void) {
@@ -938,6 +944,11 @@ uint64_t sim_image_base(void) {
     g_image_base = b ? b : 1;
   }
   return g_image_base == 1 ? 0 : g_image_base;
+}
+
+uint64_t sim_rel_pc(uint64_t pc) {
+  sim_image_base();
+  return pc >= g_image_base && pc < g_image_end ? pc - g_image_base : 0;
 }
 
 static char* put_str(char* p, const char* s) {
@@ -980,8 +991,9 @@ static void fault_handler(int sig, siginfo_t* si, void* uc_) {
   p = put_i64(p, sim_fctx.cur_call[slot]);
   p = put_str(p, " op=");
   p = put_i64(p, sim_fctx.cur_op[slot]);
+  // image-relative; a pc outside the main image (libc memcpy, ...) is load-address dependent and reported as 0
   p = put_str(p, " pc=");
-  p = put_u64(p, pc >= g_image_base ? pc - g_image_base : pc);
+  p = put_u64(p, pc >= g_image_base && pc < g_image_end ? pc - g_image_base : 0);
   if (sig == SIGSEGV || sig == SIGBUS) {
 #ifdef __x86_64__
     p = put_str(p, " write=");
